@@ -3,7 +3,8 @@
 Test matrices are built from a *prescribed* spectrum (A = Q diag(lam) Q^+ with Q unitary, or S diag(lam) S^-1 with a
 well-conditioned S), so the correct selection is known exactly and independent of any solver; numpy.linalg.eigvalsh /
 eigvals / svd and scipy.linalg.expm of the dense matrix are used as a second reference.  The selection boundary (k-th vs
-(k+1)-th value under the requested rule) is kept separated by >= 0.05, degeneracies are only placed strictly inside or
+(k+1)-th value under the requested rule) is kept separated by >= max(0.05, 0.04 R) for a spectrum in [-R, R] (iterative
+solvers with their default subspace size miss levels otherwise; that is a property of ARPACK, not of quimb), degeneracies are only placed strictly inside or
 outside the selection.
 """
 
@@ -63,28 +64,47 @@ def _selection(lam, which, k, sigma=None):
 
 
 def _spectrum(rng, d, which, k, sigma, cplx_vals=False, degenerate=False, lobpcg=False):
-    """d prescribed eigenvalues whose selection boundary under (which, k, sigma) is separated by >= 0.05"""
+    """d prescribed eigenvalues whose selection boundary under (which, k, sigma) is separated by >= max(0.05, 0.04 R)"""
+    R = max(3.0, d / 15.0)       # keep the level density moderate for the larger matrices
+    gap_min = max(0.05, 0.04 * R)
+
+    def draw(n):
+        if cplx_vals:
+            return rng.uniform(-R, R, size=n) + 1j * rng.uniform(-R, R, size=n)
+        return rng.uniform(-R, R, size=n)
+
     for _ in range(200):
         if lobpcg:
             # well separated extremal part so that 30 default iterations converge
             lam = np.concatenate([-10.0 + 1.5 * np.arange(k + 1) + 0.2 * rng.random(k + 1), rng.uniform(0, 1, size=d - k - 1)])
             if which == "LA":
                 lam = -lam
-        elif cplx_vals:
-            lam = rng.uniform(-3, 3, size=d) + 1j * rng.uniform(-3, 3, size=d)
         else:
-            lam = rng.uniform(-3, 3, size=d)
+            lam = draw(d)
+            if which.upper() == "SM":
+                lam = np.where(np.abs(lam) < 0.05, lam + 0.1, lam)
+            # push the unselected levels that crowd the boundary away from it (redraw them individually)
+            key = _key(lam, which, sigma)
+            order = np.argsort(key, kind="stable")
+            kth = key[order[k - 1]]
+            for i in order[k:]:
+                if key[i] < kth + 1.5 * gap_min:
+                    for _t in range(500):
+                        x = draw(1)
+                        if _key(x, which, sigma)[0] >= kth + 1.5 * gap_min:
+                            lam[i] = x[0]
+                            break
         if degenerate and d >= 6:
             o = np.argsort(_key(lam, which, sigma), kind="stable")
             if k >= 2:
                 lam[o[1]] = lam[o[0]]            # a degenerate pair strictly inside the selection
-            lam[o[-1]] = lam[o[-2]]              # and one strictly outside
+            lam[o[-1]] = lam[o[-2]]              # and pairs strictly outside
             if k + 3 < d:
                 lam[o[k + 2]] = lam[o[k + 1]]
         if which.upper() == "SM" and np.min(np.abs(lam)) < 1e-2:
             continue
         sel, gap = _selection(lam, which, k, sigma)
-        if gap >= 0.05:
+        if gap >= gap_min:
             return lam
     raise AssertionError("driver: could not draw a separated spectrum")
 
@@ -194,11 +214,11 @@ def _sizes(quick):
 # ------------------------------------------------------------------------------------------------
 
 @driver("C17", "partial-hermitian", chunks=8, timeout=240,
-        bound="Hermitian (complex and real symmetric) matrices with prescribed spectrum in [-3,3], d in {6,20,44,45,63,64,99,100,"
+        bound="Hermitian (complex and real symmetric) matrices with prescribed spectrum in [-R,R], R = max(3, d/15), d in {6,20,44,45,63,64,99,100,"
               "141,142} (both sides of the auto-selection thresholds d^2/k = 2000 / 10000), k in {1,2,5}; representations qarray / "
               "ndarray / csr / csc / coo / bsr / LinearOperator / Lazy; backends AUTO / numpy / scipy / lobpcg; rules default, SA, LA, "
               "LM, SM (dense backend only: ARPACK's SM mode does not converge reliably), TR and TM with a target, default with a "
-              "target; degenerate pairs strictly inside / outside the selection; boundary gap >= 0.05; return_vecs and sort both "
+              "target; degenerate pairs strictly inside / outside the selection; boundary gap >= max(0.05, 0.04 R); return_vecs and sort both "
               "ways; lobpcg on spectra with well separated extremal values (tolerance 2e-3); LinearOperator with a target only "
               "for d <= 20")
 def partial_hermitian(cx):
@@ -284,10 +304,10 @@ def partial_hermitian(cx):
 
 @driver("C17", "partial-general", chunks=6, timeout=240,
         bound="diagonalisable complex matrices S diag(lam) S^-1 (cond(S) ~ 2) with prescribed complex spectrum in the square "
-              "[-3,3]^2 and real matrices with real spectrum, d in {6,20,44,45,63,64,99,100}, k in {1,2,5}; qarray / ndarray / csr / "
+              "[-R,R]^2 (R = max(3, d/15)) and real matrices with real spectrum, d in {6,20,44,45,63,64,99,100}, k in {1,2,5}; qarray / ndarray / csr / "
               "LinearOperator / Lazy; backends AUTO / numpy / scipy; rules LM, LR, SR, LI, SI, SM (dense only), TR / TM / TI with a "
               "real target (documented meaning: real part / magnitude / imaginary part nearest the target), default rule with a "
-              "real target; isherm=False; boundary gap >= 0.05")
+              "real target; isherm=False; boundary gap >= max(0.05, 0.04 R)")
 def partial_general(cx):
     import quimb as qu
     from quimb.linalg.base_linalg import eigensystem_partial
